@@ -10,6 +10,7 @@ inductive PyExc where
   | runtimeError
   | indexError
   | keyError
+  | outOfFuel      -- a `while` loop used up the fuel it was given: the Python loop had not ended after that many rounds
 deriving DecidableEq, Repr
 
 def findFrom (l pat : List Char) : Nat → Option Nat
@@ -120,6 +121,39 @@ def forRangeFrom {α : Type} (f : Int → Except PyExc (Option α)) (start : Nat
 /-- `for i in range(n): body` where the body only tests and returns / raises -/
 def forRange {α : Type} (n : Int) (f : Int → Except PyExc (Option α)) : Except PyExc (Option α) :=
   forRangeFrom f 0 n.toNat
+
+/-- `str.isnumeric()` for one character, restricted to ASCII digits (the only numeric characters of the documents in scope) -/
+def isNumeric (c : Char) : Bool := c.isDigit
+
+/-- `l.find(pat, start)`: the search begins at `start` (clamped like a slice bound) -/
+def findAt (l pat : List Char) (start : Int) : Int :=
+  if start > l.length then -1      -- beyond the end nothing is found, not even the empty pattern
+  else match findFrom l pat (clamp l.length start) with
+  | some i => i
+  | none => -1
+
+#guard findAt "a>b>".toList ">".toList 2 == 3 && findAt "a>b>".toList ">".toList 4 == -1 && findAt "a>b>".toList ">".toList (-3) == 1
+#guard findAt "abc".toList [] 7 == -1 && findAt "abc".toList [] 3 == 3 && findAt "a>b".toList ">".toList 0 == 1
+
+/-- what one round of a `while` body does: go on with the next round, leave the loop (`break`, or the condition is false), or `return` -/
+inductive Ctl (σ ρ : Type) where
+  | next (s : σ)
+  | brk (s : σ)
+  | ret (r : ρ)
+
+/-- `while cond: body` over the variables `σ` the body assigns; one round = condition test + body.  `inl s` = the loop ended with the
+variables `s`, `inr r` = the body executed `return r`.  The Python loop has no bound; the model runs at most `fuel` rounds and raises
+`outOfFuel` after that (theorems about a generated loop say how much fuel is always enough). -/
+def whileFuel {σ ρ : Type} (body : σ → Except PyExc (Ctl σ ρ)) : Nat → σ → Except PyExc (Sum σ ρ)
+  | 0, _ => throw .outOfFuel
+  | fuel + 1, s => do
+    match ← body s with
+    | .next s' => whileFuel body fuel s'
+    | .brk s' => pure (.inl s')
+    | .ret r => pure (.inr r)
+
+#guard (match (whileFuel (fun (i : Nat) => pure (if i < 5 then Ctl.next (i + 1) else Ctl.brk i)) 10 0 : Except PyExc (Sum Nat Nat)) with | .ok (.inl 5) => true | _ => false)
+#guard (match (whileFuel (fun (i : Nat) => pure (Ctl.next (i + 1))) 10 0 : Except PyExc (Sum Nat Nat)) with | .error .outOfFuel => true | _ => false)
 
 #guard (index "abc".toList 0).toOption == some 'a' && (index "abc".toList (-1)).toOption == some 'c'
 #guard (index "abc".toList 3).toOption == none && (index "abc".toList (-4)).toOption == none && (index [] 0).toOption == none
